@@ -180,7 +180,8 @@ func normalize(root string, overlay map[string][]byte, baseline map[string]bool)
 	}
 	var log []string
 	inlined := 0
-	for round := 0; round < 16; round++ {
+	expanded := 0
+	for round := 0; round < 40; round++ {
 		pkgs, err := loadSyntax(root, out)
 		if err != nil {
 			return nil, log, err
@@ -189,6 +190,24 @@ func normalize(root string, overlay map[string][]byte, baseline map[string]bool)
 		for _, pk := range pkgs {
 			if !strings.HasPrefix(pk.PkgPath, modPath) {
 				continue
+			}
+			if expanded < 24 {
+				prev := map[string][]byte{}
+				for k, v := range out {
+					prev[k] = v
+				}
+				if ok, what := expandOneClosure(pk, out, root); ok {
+					// keep the expansion only if everything still type-checks
+					if _, terr := loadSyntax(root, out); terr == nil {
+						expanded++
+						inlined++
+						log = append(log, what)
+						progress = true
+						break
+					}
+					out = prev
+					expanded = 1 << 20 // do not retry a closure that cannot be expanded
+				}
 			}
 			// candidate callees declared in this package
 			decls := map[*types.Func]*ast.FuncDecl{}
